@@ -164,7 +164,12 @@ struct YearlyMaxCosts {
 fn calc_yearly_max_cost_day(max_day_costs: &MaxDayCosts) -> YearlyMaxCosts {
     let mut max_cost_day_for_year = HashMap::<i32, Date>::new();
 
-    for (day, day_cost) in &max_day_costs.max_costs_by_day {
+    // Visit the days in date order (not in the map's arbitrary order), so that
+    // among several days sharing a year's maximum the earliest is always chosen.
+    let mut sorted_days: Vec<&Date> = max_day_costs.max_costs_by_day.keys().collect();
+    sorted_days.sort();
+    for day in sorted_days {
+        let day_cost = max_day_costs.max_costs_by_day.get(day).unwrap();
         match max_cost_day_for_year.get(&day.year()) {
             Some(old_date) => {
                 let old_date_cost =
